@@ -225,7 +225,7 @@ def project_table(tb, which):
             'mean1000': iround(r['height_mean'], 1000),
             'std10': -1 if math.isnan(std) else iround(std, 10),
             'fk': fk,
-            'f100': iround(flf, 100) if fk == 0 else 0,
+            'f100': min(iround(flf, 100), 2000000000) if fk == 0 else 0,   # capped: TLC integers are 32 bit
             'code': chars(str(r['code'])),
             'sig': bool(r['significant']),
         }
@@ -266,6 +266,21 @@ def snapshot(chunk, ranks):
 EMPTY_SNAP = {'data': [], 'flag': False, 'has': {'s': False, 'g': False, 'l': False},
               'ids': {'s': [], 'g': [], 'l': []}, 'hast': {w: False for w in WHICH},
               'tbl': {w: [] for w in WHICH}, 'nrep': {w: -1 for w in WHICH}}
+
+
+def check_int_range(x):
+    """ TLC integers are 32 bit and its Json module mangles larger ones """
+    if isinstance(x, bool):
+        return
+    if isinstance(x, int):
+        if abs(x) >= 2 ** 31 - 1:
+            raise Inexact(f'integer {x} outside the 32-bit range')
+    elif isinstance(x, dict):
+        for v in x.values():
+            check_int_range(v)
+    elif isinstance(x, (list, tuple)):
+        for v in x:
+            check_int_range(v)
 
 
 def exc_name(e):
@@ -371,6 +386,7 @@ class Recorder:
 
     def finish(self):
         self.trace['raw'] = project_rows(self.frame_norm(), self.ranks)
+        check_int_range(self.events)
         if 'prm' not in self.trace:
             self.trace['prm'] = None
         self.trace['events'] = self.events
